@@ -36,7 +36,9 @@ namespace Rfsm.Interp
     (history pseudo-states); history states have no children, are never parents, and own exactly
     one transition whose targets are non-history proper descendants of the parent (children for
     shallow history); listed transitions exist and start at the listing state; a `<state>` with
-    children has an initial transition whose targets are descendants (history children included). -/
+    children has an initial transition whose targets are descendants (history children included);
+    every state other than the root has the root among its ancestors (the parent pointers form a
+    tree, within the fuel of `ancestors`). -/
 def conformantB (d : Doc) : Bool :=
   let n := d.states.length
   let valid := fun (x : Nat) => decide (0 < x) && decide (x ≤ n)
@@ -65,5 +67,8 @@ def conformantB (d : Doc) : Bool :=
             && !(getTrans d st.initial).target.isEmpty
             && (getTrans d st.initial).target.all (fun t => valid t && isDescendant d t s)
           else true))
+  -- the parent pointers form a tree below the root: walking up from any state reaches the root
+  -- (the reader builds the tables from nested elements, so this holds for every document it reads)
+  && d.states.all (fun st => st.id == d.root || (ancestors d st.id).contains d.root)
 
 end Rfsm.Interp
